@@ -429,6 +429,8 @@ class Executor:
                 elif isinstance(val, Lazy):
                     inner, isref = strip_ref(val.ty)
                     val = self.lazy_child(st, val, ("deref",), inner if isref else "?", "*")
+                    if isinstance(val, Lazy) and (val.oid, ("whole",)) in st.over:
+                        val = st.over[(val.oid, ("whole",))]
                     key, path = None, ()
                 elif isinstance(val, Str):
                     key, path = None, ()        # &'static str: the constant stands for both the pointer and the data
@@ -556,9 +558,9 @@ class Executor:
             else:
                 raise Inconclusive(f"lazy write projection {pr}")
         if isinstance(cur, Lazy):
-            # whole-object overwrite through a pointer
+            # whole-object overwrite through a pointer (e.g. `*pair.value_mut() = e`): later reads of the pointee see the value
             st.over[(cur.oid, ("whole",))] = value
-            raise Inconclusive("whole-object write into symbolic pointee")
+            st.trace.append(("store-through", cur, value))
 
     def _set(self, st, key, path, value):
         if not path:
